@@ -325,7 +325,7 @@ func init() {
 		Header:         "From ZenoV Require Import Lib.Harness Lib.Hex Queue.HopsPath Queue.Batcher Queue.LqDb Queue.QueueHarness.\nOpen Scope Z_scope.\n",
 		CaseType:       "qcase",
 		Footer:         "\nDefinition DIFF := Eval vm_compute in qdiffs cases.\nPrint DIFF.\nDefinition MON := Eval vm_compute in qmons cases.\nPrint MON.\n",
-		Rule:           "one case = one run of the real lq source (lq.Start: consumer, producer, finisher goroutines) in its own process on a scratch lq.db: workers 1..12, 2..130 outlinks produced in 1..3 rounds (texts from a pool incl. duplicates inside a round, duplicates of rows still waiting or claimed, re-adds after the row was finished and deleted, unparsable and non-UTF-8 texts; differing via/hops on duplicates), rounds separated by waits for the timer flush / for claims and deletes, seeds finished (0..2 children) or held by a plan; in ~25% of the cases the outlinks are what the REAL preprocess/postprocess return for a seed tree with a scripted archiver (page behind 0..3 redirects, links in the page's HTML and/or in the JSON document of a child asset); observed through the lq.added / lq.claimed / lq.deleted hook points, the reactor output and the table read back at the end; distinct by input; non-trivial when some produced text was already in the table (skipped) AND some row was claimed and deleted AND a size-triggered (100) or a timer-triggered batch of >= 2 URLs was added",
+		Rule:           "one case = one run of the real lq source (lq.Start: consumer, producer, finisher goroutines) in its own process on a scratch lq.db: workers 1..12, 2..250 outlinks produced in 1..3 rounds (texts from a pool incl. duplicates inside a round, duplicates of rows still waiting or claimed, re-adds after the row was finished and deleted, unparsable and non-UTF-8 texts; differing via/hops on duplicates), rounds separated by waits for the timer flush / for claims and deletes, seeds finished (0..2 children) or held by a plan; in ~25% of the cases the outlinks are what the REAL preprocess/postprocess return for a seed tree with a scripted archiver (page behind 0..3 redirects, links in the page's HTML and/or in the JSON document of a child asset); observed through the lq.added / lq.claimed / lq.deleted hook points, the reactor output and the table read back at the end; distinct by input; non-trivial when some produced text was already in the table (skipped) AND some row was claimed and deleted AND a size-triggered (100) or a timer-triggered batch of >= 2 URLs was added",
 		Gen:            genLQFlow,
 		Exec:           execLQFlow,
 		Shrink:         shrinkLQFlow,
@@ -365,6 +365,12 @@ func genLQFlow(r *Rng, i int, tier string) string {
 		}
 		big = r.Chance(8)
 	}
+	// a size-triggered batch needs 100 URLs; 230 in one go give two full batches back to back (the
+	// second is filled while the first Add runs) and a timer-flushed rest
+	nbulk := 104
+	if r.Chance(40) {
+		nbulk = 230
+	}
 	npool := 2 + r.Intn(8)
 	var items []string
 	anyBad := false
@@ -380,20 +386,20 @@ func genLQFlow(r *Rng, i int, tier string) string {
 		}
 	}
 	if big {
-		for j := 0; j < 104; j++ {
+		for j := 0; j < nbulk; j++ {
 			items = append(items, fmt.Sprintf("%x,%x,%d", fmt.Sprintf("http://bulk.test/%d", j), viaTexts[r.Intn(len(viaTexts))], j%7))
 		}
 	}
 	var steps []string
 	for rd := 0; rd < rounds; rd++ {
 		if big && rd == 0 {
-			for j := len(items) - 104; j < len(items); j++ {
+			for j := len(items) - nbulk; j < len(items); j++ {
 				steps = append(steps, fmt.Sprintf("P%d", j))
 			}
 		}
 		m := 1 + r.Intn(6)
 		for j := 0; j < m; j++ {
-			steps = append(steps, fmt.Sprintf("P%d", r.Intn(len(items)-map[bool]int{true: 104, false: 0}[big])))
+			steps = append(steps, fmt.Sprintf("P%d", r.Intn(len(items)-map[bool]int{true: nbulk, false: 0}[big])))
 		}
 		if rd+1 < rounds {
 			steps = append(steps, []string{"W", "X", "X"}[r.Intn(3)])
